@@ -15,10 +15,12 @@ use std::io::{BufWriter, Write};
 pub const CONNS: [&str; 6] = [
     "127.0.0.1", "127.0.0.2", "127.0.0.3", "127.0.0.4", "127.0.0.5", "127.0.0.6",
 ];
-pub const NICKS: [&str; 8] = ["alice", "bob", "carol", "dave", "eve", "god", "zoë", "x"];
+pub const NICKS: [&str; 9] = ["alice", "bob", "carol", "dave", "eve", "god", "zoë", "x", "Alice"];
 pub const CHANS: [&str; 5] = ["#one", "&two", "#pre", "#sec", "#four"];
 pub const KEYS: [&str; 3] = ["k1", "k2", "sesame"];
-pub const TEXTS: [&str; 7] = [
+pub const TEXTS: [&str; 9] = [
+    ":-)",
+    "::",
     "hello",
     "hello: world",
     "",
